@@ -7,7 +7,7 @@ META = {
         "P (proved on the real body of llsd._format_binary_recurse, scalar cases): the type tag written is the one LLSD assigns to the "
         "value's type (None '!', bool '1'/'0', int 'i', real 'r', UUID 'u', binary 'b', uri 'l' - not 's' -, str 's', date 'd'), with "
         "is_string/isinstance axioms for the llsd type lattice (uri is a str subclass). "
-        "B (bounded, NOT proved): all 481 templates through LLSDMessageSerializer dict and XML forms, event-queue injection, "
+        "LLSDMessageSerializer.serialize / deserialize: what is walked and rewritten is a fresh dict (to_dict) respectively a deep copy or parse result, never the caller's value; every yielded (block, variable) has exactly its own value packed / unpacked with its own type and stored back under its own name; the result is that dict / its XML / the message built from it. B (bounded, NOT proved): all 481 templates through LLSDMessageSerializer dict and XML forms, event-queue injection, "
         "LLSDDataPacker pairs against an independent statement of the packed form; generated LLSD trees (depth <= 4) through 10 codec "
         "routes (binary with both headers / none / sniffed, zipped, streamed, notation, XML), dates in three process time zones, no raw "
         "newline in notation. Upstream llsd date truncation recorded as a known finding."),
@@ -21,6 +21,8 @@ META = {
 
 def register(reg):
     c12_contracts.register_p(reg, PID)
+    from contracts import c12b_contracts
+    c12b_contracts.register_p2(reg, PID)
 
 
 BOUNDED = [c12_native.bounded_llsd_messages, c12_native.bounded_llsd_codecs]
